@@ -13,7 +13,7 @@ LEVEL_TEXT = ("Deductive part (vcgen/z3, all inputs): PhasedBlock.add keeps left
               "Bounded stand-in: the real run_stats on generated VCFs (phased/unphased/homozygous/missing/partial calls, interleaved and nested phase sets, several "
               "chromosomes and samples, PS and HP, ploidy 2 and 3, --only-snvs, --chromosome selections in any order, --sample) against an independent counter over the "
               "file text: variants, heterozygous (SNVs), phased, unphased, singletons, blocks, the two sum identities, block list with true extents, non-overlapping "
-              "block lengths bounded by the covered span, ALL row = sum of rows. Deductive contracts for get_phase_blocks/get_detailed_stats are planned.")
+              "block lengths bounded by the covered span, ALL row = sum of rows.")
 LEVEL_NOTE = "Seeded sampling. 'Variants' are the records the reader keeps: biallelic, first eligible record at a position, SNV only under --only-snvs (stated in the rule)."
 TECHNIQUE = "bounded runtime contract on run_stats (TSV + block list) against an independent counter over generated VCF text"
 D_MODULES = ["contracts.stats_py"]
